@@ -59,6 +59,9 @@ def compose(kidx, shape):
         conts = [Container("CCSDSPacket", hdr, abstract=True),
                  Container("A", tuple(e for es in ents for e in es), base="CCSDSPacket", criteria=(Cmp("PKT_APID", "==", "1"),)),
                  Container("B", tuple(ents[0]), base="CCSDSPacket", criteria=(Cmp("PKT_APID", "==", "2"), Cmp("SEQ_FLGS", "==", "3")))]
+        if sum(kidx) % 2 == 0:
+            # a stand-alone container listed FIRST that embeds the root (which is also the base of A and B); reachable only as a per-call root
+            conts.insert(0, Container("DUMP", (("c", "CCSDSPacket"),) + tuple(ents[0]), short="header and first field, as a stand-alone layout"))
     else:
         inner = tuple(e for es in ents[1:2] for e in es)
         a_entries = tuple(ents[0]) + (("c", "NEST"),) + tuple(e for es in ents[2:] for e in es)
